@@ -485,7 +485,7 @@ def oracle(case, meta_cfg, meta_world, impl):
         return "ok", "loglevel-%d" % h["code"]
     ex = expect_exists(pattern, params, meta_cfg, meta_world)
     if ex:
-        if h["code"] != 200 or h["err"] != "f" or not h["req"]:
+        if h["code"] != 200 or h["err"] != "f":
             return "violation", "existing resource answered %d error=%s" % (h["code"], h["err"])
         if is_status and h["status"] in ("-", "NOTFOUND"):
             return "violation", "existing group has status %s" % h["status"]
@@ -507,12 +507,11 @@ def classify(case, why):
         return None
     idx, params = m
     method, pattern = ROUTES[idx]
-    if method == "DELETE" and "unknown resource answered 200" in why:
+    # recorded finding: a DELETE naming an unknown cluster / consumer group is answered 200 error=false.  Keyed on
+    # method DELETE + unknown group + exactly that answer; any other failure of a DELETE (another code, error=true
+    # with 200, no JSON envelope, a panic) is not of this class.
+    if method == "DELETE" and why == "unknown resource answered 200 error=f":
         return "C16:delete-unknown-group"
-    if pattern in CONFIG_DETAIL and ("unknown resource answered 200" in why or "no JSON envelope" in why):
-        nm = params.get("cluster" if "cluster" in params else "name", b"")
-        if b"." in nm:
-            return "C16:dotted-module-name"
     return None
 
 
@@ -545,3 +544,219 @@ def gen_leak(rng, i):
         toks += [m, hx(p)]
     return " ".join(toks), {"tokens": pw.n, "requests": len(reqs), "notifiers": len(cfg.get("notifier", {})),
                             "sasl": len(cfg.get("sasl", {}))}
+
+
+# ------------------------------------------------------------------------------------------------
+# C16 storage-backed cases (read-only half): see probes/http/verif_http_e2e_probe_test.go
+# ------------------------------------------------------------------------------------------------
+
+E2E_T0 = 1700000000
+GET_V3 = [r for r in ROUTES if r[0] == "GET" and r[1] != "/burrow/admin/ready"]
+
+
+def gen_e2e(rng, i):
+    """One storage-backed case: (line, meta).  meta holds the python-side knowledge the oracle needs."""
+    expire = rng.choice([60, 300, 3600])
+    intervals = rng.choice([2, 3, 5, 10])
+    clusters = rng.sample(["c1", "c2", "prod-east"], rng.randint(1, 2))
+    t_end_off = rng.choice([0, 0, 5, 30, expire // 2, expire, 2 * expire])
+    events = []          # (time, seq, op tokens)
+    seq = [0]
+
+    def ev(t, toks):
+        seq[0] += 1
+        events.append((t, seq[0], toks))
+
+    topics = {}          # cluster -> {topic: partition count}
+    groups = {}          # cluster -> {group: category}
+    for c in clusters:
+        topics[c] = {}
+        for tp in rng.sample(["t1", "orders", "a.b", "Logs"], rng.randint(1, 3)):
+            cnt = rng.randint(1, 3)
+            topics[c][tp] = cnt
+            for p in range(cnt):
+                off = rng.randint(100, 10 ** 6)
+                for k in range(rng.randint(1, intervals + 1)):
+                    off += rng.randint(0, 500)
+                    ev(E2E_T0 - 3 * expire - 50 + k, ["b", hx(c), hx(tp), str(p), str(cnt), str(off)])
+        groups[c] = {}
+        for g in rng.sample(["g1", "billing", "g.x", "Group", "g 2"], rng.randint(0, 4)):
+            cat = rng.choice(["fresh", "fresh", "expiring", "expired"])
+            groups[c][g] = cat
+            if cat == "fresh":
+                last = E2E_T0 - rng.randint(0, expire // 3)
+            elif cat == "expiring":
+                # last commit expires in (T, T + 2*expire]: whether it is gone at T2 depends on the case
+                last = E2E_T0 - expire + rng.randint(1, max(1, min(2 * expire, t_end_off + 3)))
+            else:
+                last = E2E_T0 - expire - rng.randint(1, expire)
+            for tp in rng.sample(sorted(topics[c]), rng.randint(1, min(2, len(topics[c])))):
+                for p in rng.sample(range(topics[c][tp]), rng.randint(1, topics[c][tp])):
+                    nk = rng.randint(1, intervals + 2)
+                    off = rng.randint(0, 10 ** 5)
+                    for k in range(nk):
+                        tm = last - (nk - 1 - k) * rng.randint(1, 5)
+                        off += rng.randint(0, 300)
+                        ev(tm, ["c", hx(c), hx(g), hx(tp), str(p), str(off), str(tm * 1000)])
+                    if rng.random() < 0.5:
+                        ev(last, ["o", hx(c), hx(g), hx(tp), str(p), hx("host-%d" % rng.randint(1, 3))])
+    events.sort(key=lambda e: (e[0], e[1]))
+    ops, cur = [], None
+    for tm, _, toks in events:
+        if tm != cur:
+            ops.append(["t", str(tm)])
+            cur = tm
+        ops.append(toks)
+    # the GET batch: every GET pattern, names from the pools (existing and unknown), clock values T .. T2
+    gets, metas = [], []
+    all_topics = sorted({t for c in clusters for t in topics[c]})
+    all_groups = sorted({g for c in clusters for g in groups[c]})
+    for rep in range(rng.randint(1, 2)):
+        for method, pattern in GET_V3:
+            names = [s[1:] for s in pattern.split("/") if s.startswith(":")]
+            vals = []
+            for pn in names:
+                if pattern in CONFIG_DETAIL:
+                    pool = {"cluster": clusters, "storage": ["e2e"], "evaluator": ["e2e"], "consumer": [], "notifier": []}[CONFIG_DETAIL[pattern]]
+                else:
+                    pool = {"cluster": clusters, "topic": all_topics, "consumer": all_groups}.get(pn, [])
+                if pool and rng.random() < 0.75:
+                    vals.append(rng.choice(pool).encode())
+                else:
+                    vals.append(rng.choice([b"nosuch", b"x.y", b"a b", b"C1", "café".encode()]))
+            raw, dec = build_path(pattern, vals)
+            gets.append((method, raw))
+            metas.append((pattern, dict(zip(names, vals))))
+    order = list(range(len(gets)))
+    rng.shuffle(order)
+    gets = [gets[k] for k in order]
+    metas = [metas[k] for k in order]
+    dts = sorted(rng.randint(0, t_end_off) for _ in gets)
+    toks = ["e2e", str(expire), str(intervals), str(len(clusters))] + [hx(c) for c in clusters] + ["I", str(len(ops))]
+    for o in ops:
+        toks += o
+    toks += [str(E2E_T0), str(E2E_T0 + t_end_off), "G", str(len(gets))]
+    for (m, raw), dt in zip(gets, dts):
+        toks += [str(dt), m, hx(raw)]
+    meta = {"kind": "e2e", "expire": expire, "clusters": clusters, "topics": topics, "groups": groups, "gets": metas,
+            "t_end_off": t_end_off, "n_ops": len(ops)}
+    return " ".join(toks), meta
+
+
+def e2e_expect(pattern, params, meta):
+    """True / False / None (the python side cannot tell: depends on expiry)."""
+    if pattern in CONFIG_DETAIL:
+        sect = {"cluster": meta["clusters"], "storage": ["e2e"], "evaluator": ["e2e"]}.get(CONFIG_DETAIL[pattern], [])
+        nm = params.get("cluster" if "cluster" in params else "name", b"")
+        try:
+            return nm.decode("ascii").lower() in [s.lower() for s in sect]
+        except UnicodeDecodeError:
+            return False
+    if not pattern.startswith("/v3/kafka/"):
+        return True
+    c = params.get("cluster", b"").decode("utf-8", "replace")
+    if c not in meta["clusters"]:
+        return False
+    if ":consumer" in pattern:
+        cat = meta["groups"][c].get(params["consumer"].decode("utf-8", "replace"))
+        if cat is None:
+            return False
+        if cat == "fresh" and meta["t_end_off"] <= meta["expire"] // 2:
+            return True
+        return None
+    if pattern.endswith("/topic/:topic"):
+        return params["topic"].decode("utf-8", "replace") in meta["topics"][c]
+    return True
+
+
+def oracle_e2e(meta, impl):
+    """(verdict, why) for one storage-backed case, on the implementation's output line."""
+    f = impl.split()
+    if not f or f[0] != "E2E":
+        return "violation", "harness: " + impl[:200]
+    if f[1] != "same":
+        parts = f[1].split(":")
+        det = ""
+        if len(parts) == 4:
+            det = " key=%s before-only=%s after-GETs=%s" % tuple(unhx(x).decode("utf-8", "replace")[:200] for x in parts[1:])
+        return "violation", "a batch of GET requests changed what later reads return:" + det
+    obs = f[f.index("K") + 1:]
+    if len(obs) != len(meta["gets"]):
+        return "violation", "harness: %d observations for %d GETs" % (len(obs), len(meta["gets"]))
+    for (pattern, params), o in zip(meta["gets"], obs):
+        if o in ("CRASH", "BADURL"):
+            return "violation", "GET %s %s: %s" % (pattern, params, o)
+        if not pattern.startswith("/v3"):
+            continue
+        code, errf, status = o.split(":")
+        ex = e2e_expect(pattern, params, meta)
+        is_status = pattern.endswith("/status") or pattern.endswith("/lag")
+        if ex is True and not (code == "200" and errf == "f" and not (is_status and status in ("-", "NOTFOUND"))):
+            return "violation", "storage-backed: existing resource %s %s answered %s" % (pattern, params, o)
+        if ex is False:
+            if is_status and not (code == "404" and status == "NOTFOUND"):
+                return "violation", "storage-backed: unknown group on %s %s answered %s" % (pattern, params, o)
+            if not is_status and not (code == "404" and errf == "t"):
+                return "violation", "storage-backed: unknown resource %s %s answered %s" % (pattern, params, o)
+    return "ok", "e2e-same"
+
+
+# ------------------------------------------------------------------------------------------------
+# case line -> python structures (corpus cases and replays carry their own configuration and world)
+# ------------------------------------------------------------------------------------------------
+
+def _parse_tree(f, i):
+    if f[i] == "L":
+        k = f[i + 1]
+        if k == "s":
+            return ("s", unhx(f[i + 2]).decode("utf-8", "replace")), i + 3
+        if k == "n":
+            return ("n", int(f[i + 2])), i + 3
+        if k == "b":
+            return ("b", f[i + 2] == "1"), i + 3
+        if k == "l":
+            n = int(f[i + 2])
+            return ("l", [unhx(x).decode("utf-8", "replace") for x in f[i + 3:i + 3 + n]]), i + 3 + n
+        if k == "p":
+            return ("p", int(f[i + 2])), i + 3
+        raise ValueError("leaf kind " + k)
+    if f[i] == "N":
+        n = int(f[i + 1])
+        i += 2
+        d = {}
+        for _ in range(n):
+            key = unhx(f[i]).decode("utf-8", "replace")
+            v, i = _parse_tree(f, i + 1)
+            d.setdefault(key, v)
+        return d, i
+    raise ValueError("tree token " + f[i])
+
+
+def parse_cfg_world(case):
+    """(cfg, world) of a `req` line in the structures gen_config / gen_world produce."""
+    f = case.split()
+    i = f.index("C")
+    cfg, i = _parse_tree(f, i + 1)
+    assert f[i] == "W"
+    i += 1
+    n = int(f[i])
+    i += 1
+    world = []
+    for _ in range(n):
+        nm = unhx(f[i]).decode("utf-8", "replace")
+        nt = int(f[i + 1])
+        i += 2
+        topics = []
+        for _ in range(nt):
+            t = unhx(f[i]).decode("utf-8", "replace")
+            no = int(f[i + 1])
+            topics.append((t, [int(x) for x in f[i + 2:i + 2 + no]]))
+            i += 2 + no
+        ng = int(f[i])
+        i += 1
+        groups = []
+        for _ in range(ng):
+            groups.append((unhx(f[i]).decode("utf-8", "replace"), int(f[i + 1]), f[i + 2] == "1"))
+            i += 3
+        world.append((nm, topics, groups))
+    return cfg if isinstance(cfg, dict) else {}, world
